@@ -55,6 +55,12 @@ namespace awkward {
 
   const FormPtr
   UnionForm::content(int64_t index) const {
+    if (index < 0  ||  index >= numcontents()) {
+      throw std::invalid_argument(
+        std::string("index ") + std::to_string(index)
+        + std::string(" for union with only ") + std::to_string(numcontents())
+        + std::string(" contents") + FILENAME(__LINE__));
+    }
     return contents_[(size_t)index];
   }
 
